@@ -14,6 +14,8 @@ QUICK = dict(TemplateVals="{0, 1, 2, 3, 4, 70, 3000}", FieldVals="{0, 1, 4}", Re
 
 def lim_key(name, d):
     short = name.split(".", 1)[1]
+    if d.get("panic") and d["sink"].startswith("cfg:"):
+        return f"Limits.{short} configuration={d['via']} actions={d['sink'][4:]} panic={d['panic'].splitlines()[0][:60]}"
     if d.get("panic"):
         m = re.search(r"([\w/.()*]+)\.(\w+)\(", d["panic"].split("|")[0].splitlines()[-1])
         return f"Limits.{short} sink={d['sink']} small-template-limit={str(d['t'] < 3).lower()} panic-in={m.group(2) if m else '?'}"
